@@ -589,8 +589,107 @@ class ModuleNormalizer(object):
             ast.fix_missing_locations(x)
         return out
 
+    # ------------------------------------------------------------------ generator fusion
+    def _gen_eligible(self, callee, cq):
+        """a generator helper that can be fused into the loop consuming it: plain parameters, not in the inventory, and every `yield` is a statement of its own
+        (its value unused) that is the LAST statement of its block, nested only in for / while / if -- so resuming after the yield means going on with the
+        enclosing loop, which is what running the consumer's body in its place does."""
+        if cq in self.known_funcs or self._deco_names(callee):
+            return False
+        a = callee.args
+        if a.vararg or a.kwarg or a.posonlyargs:
+            return False
+        if _contains(callee.body, (ast.YieldFrom, ast.Await, ast.Global, ast.Nonlocal, ast.Try, ast.With, ast.Return)):
+            return False
+        yields = [n for n in ast.walk(ast.Module(body=callee.body, type_ignores=[])) if isinstance(n, ast.Yield)]
+        if not yields:
+            return False
+        ok = [0]
+
+        def scan(stmts):
+            for k, st in enumerate(stmts):
+                if isinstance(st, ast.Expr) and isinstance(st.value, ast.Yield):
+                    if k != len(stmts) - 1 or st.value.value is None:
+                        return False
+                    ok[0] += 1
+                    continue
+                if isinstance(st, (ast.FunctionDef, ast.ClassDef)):
+                    return False
+                for fld in ("body", "orelse"):
+                    blk = getattr(st, fld, None)
+                    if isinstance(blk, list) and blk and isinstance(blk[0], ast.stmt):
+                        if not isinstance(st, (ast.For, ast.While, ast.If)):
+                            return False
+                        if not scan(blk):
+                            return False
+            return True
+        return scan(callee.body) and ok[0] == len(yields)
+
+    def _fuse_generator(self, s, cls, fn, qual, nested):
+        """`for T in gen(args): BODY` with gen an eligible generator helper of the same module -> gen's body with every `yield E` replaced by `T = E; BODY`."""
+        if not (isinstance(s, ast.For) and isinstance(s.iter, ast.Call) and not s.orelse):
+            return None
+        r = self._resolve(s.iter, cls, fn, qual, nested)
+        if r is None or r[0] is fn or not self._gen_eligible(r[0], r[2]):
+            return None
+        callee, selfexpr, cq = r
+
+        def own_level(stmts, kinds):
+            for st in stmts:
+                if isinstance(st, kinds):
+                    return True
+                if isinstance(st, (ast.For, ast.While, ast.FunctionDef, ast.ClassDef)):
+                    continue
+                for fld in ("body", "orelse", "finalbody"):
+                    blk = getattr(st, fld, None)
+                    if isinstance(blk, list) and blk and isinstance(blk[0], ast.stmt) and own_level(blk, kinds):
+                        return True
+                for h in getattr(st, "handlers", []) or []:
+                    if own_level(h.body, kinds):
+                        return True
+            return False
+        if own_level(s.body, (ast.Break,)):
+            return None                      # `break` ends the consumption of the generator: not expressible by fusion
+        top_yield = any(isinstance(st, ast.Expr) and isinstance(st.value, ast.Yield) for st in callee.body)
+        if top_yield and own_level(s.body, (ast.Continue,)):
+            return None
+        body = copy.deepcopy(callee.body)
+        if body and isinstance(body[0], ast.Expr) and isinstance(body[0].value, ast.Constant) and isinstance(body[0].value.value, str):
+            body = body[1:]
+        try:
+            pre, mapping, rename = self._bind_params(s, s.iter, callee, selfexpr, fn, body)
+        except NotInlinable as e:
+            self.log.append("not fused %s into %s: %s" % (cq, qual, e))
+            self.known_funcs.add(cq)
+            return None
+        sub = _Subst(mapping, rename)
+        body = [sub.visit(x) for x in body]
+
+        def replace(stmts):
+            out = []
+            for st in stmts:
+                if isinstance(st, ast.Expr) and isinstance(st.value, ast.Yield):
+                    out.append(ast.Assign(targets=[copy.deepcopy(s.target)], value=st.value.value, lineno=s.lineno, col_offset=0))
+                    out.extend(copy.deepcopy(s.body))
+                    continue
+                for fld in ("body", "orelse"):
+                    blk = getattr(st, fld, None)
+                    if isinstance(blk, list) and blk and isinstance(blk[0], ast.stmt):
+                        setattr(st, fld, replace(blk))
+                out.append(st)
+            return out
+        self.counter += 1
+        stmts = pre + replace(body)
+        _set_lines(stmts, s.lineno)
+        for x in stmts:
+            ast.fix_missing_locations(x)
+        return stmts
+
     def _inline_in_stmt(self, s, cls, fn, qual, nested):
         d = self._desugar_comp(s, cls, fn, qual, nested)
+        if d is not None:
+            return d, None
+        d = self._fuse_generator(s, cls, fn, qual, nested)
         if d is not None:
             return d, None
         for expr in self._header_exprs(s):
@@ -607,15 +706,8 @@ class ModuleNormalizer(object):
                 return None, None
         return None, None
 
-    def _expand(self, s, expr, call, callee, selfexpr, fn, cq):
-        self.counter += 1
-        ret = "_ret_%s_%d" % (callee.name.strip("_"), self.counter)
-        body = copy.deepcopy(callee.body)
-        # drop the docstring
-        if body and isinstance(body[0], ast.Expr) and isinstance(body[0].value, ast.Constant) and isinstance(body[0].value.value, str):
-            body = body[1:]
-        if not body:
-            body = [ast.Pass()]
+    def _bind_params(self, s, call, callee, selfexpr, fn, body):
+        """-> (assignments binding non-trivial arguments, parameter -> argument expression, local renames) for inlining callee's body at statement s"""
         params = [a.arg for a in callee.args.args]
         defaults = callee.args.defaults
         kwonly = [a.arg for a in callee.args.kwonlyargs]
@@ -667,6 +759,18 @@ class ModuleNormalizer(object):
             if nm in caller_names:
                 self.counter += 1
                 rename[nm] = "%s_%d" % (nm, self.counter)
+        return pre, mapping, rename
+
+    def _expand(self, s, expr, call, callee, selfexpr, fn, cq):
+        self.counter += 1
+        ret = "_ret_%s_%d" % (callee.name.strip("_"), self.counter)
+        body = copy.deepcopy(callee.body)
+        # drop the docstring
+        if body and isinstance(body[0], ast.Expr) and isinstance(body[0].value, ast.Constant) and isinstance(body[0].value.value, str):
+            body = body[1:]
+        if not body:
+            body = [ast.Pass()]
+        pre, mapping, rename = self._bind_params(s, call, callee, selfexpr, fn, body)
         new_body, _ = _tailify(body, ret)
         sub = _Subst(mapping, rename)
         new_body = [sub.visit(x) for x in new_body]
